@@ -151,6 +151,17 @@ func c16Inputs(thorough bool) []c16case {
 	for i, pair := range [][2]int{{0, 12}, {0, 13}, {0, 14}, {1, 10}, {9, 10}, {3, 15}, {0, 9}} {
 		add(fmt.Sprintf("linux-multi-option:%d", i), "Linux", core.Files{Main: linuxRuleset([]int{pair[0]}, true)}, core.Files{Main: linuxRuleset([]int{pair[1]}, false)})
 	}
+	// Linux: protocol given by name with a match option of the same name
+	// (the normalisation of one option depends on the value of another)
+	for i, pr := range [][2]string{{"vrrp", "112"}, {"ipv6-icmp", "58"}, {"VRRP", "112"}, {"tcp", "tcp"}} {
+		raw := func(rule string) string {
+			return "*filter\n:INPUT DROP\n:FORWARD DROP\n:OUTPUT ACCEPT\n-A FORWARD " + rule + "\nCOMMIT\n"
+		}
+		add(fmt.Sprintf("linux-proto-match:%d", i), "Linux", core.Files{Main: raw("-p " + pr[1] + " -j ACCEPT")},
+			core.Files{Main: raw("-j ACCEPT -p " + pr[0] + " -m " + pr[0])})
+		add(fmt.Sprintf("linux-proto-match-rev:%d", i), "Linux", core.Files{Main: raw("-p " + pr[0] + " -m " + pr[0] + " -j ACCEPT")},
+			core.Files{Main: raw("-j ACCEPT -p " + pr[1])})
+	}
 	add("linux-struct", "Linux", core.Files{Main: "*filter\n:INPUT DROP\n:a -\n:b -\n:c -\nCOMMIT\n*mangle\n:PREROUTING ACCEPT\nCOMMIT\n*nat\n:PREROUTING ACCEPT\nCOMMIT\n"},
 		core.Files{Main: "*filter\n:INPUT DROP\n:d -\n:e -\nCOMMIT\n*raw\n:PREROUTING ACCEPT\nCOMMIT\n"})
 	// PAN-OS
